@@ -7,7 +7,8 @@ Case shape:
    "sig": {"pos": [[name, default|null], ...], "varargs": name|null,
            "kwonly": [[name, default|null], ...], "varkw": name|null},
    "c1": {"args": [int], "kwargs": [[name, int]], "override": bool, "ignore": bool},
-   "c2": {"args": [int], "kwargs": [[name, int]], "override": bool|null, "ignore": bool|null}}
+   "c2": {"args": [int], "kwargs": [[name, int]], "override": bool|null, "ignore": bool|null},
+   "tc_call": bool}                          # false: the call runs under pg.enable_type_check(False)
 
 functor: `F(*c1.args, **c1.kwargs, override_args=…, ignore_extra_args=…)(*c2.args, **c2.kwargs …)`;
 cls:     `Cls(*c1.args, **c1.kwargs)` where Cls = pg.symbolize(<generated class>), c2 absent.
@@ -468,6 +469,8 @@ class C18(Prop):
       # where == 2: surplus without the option (expected to be refused)
     case['c1'] = dict(c1, kwargs=dedupe(c1['kwargs']), **c1f)
     case['c2'] = dict(c2, kwargs=dedupe(c2['kwargs']), **c2f)
+    # the call (not the construction) runs under pg.enable_type_check(False) in ~12 % of the cases
+    case['tc_call'] = not rng.chance(0.12)
     return case
 
   def generate(self, rng, tier):
@@ -613,12 +616,16 @@ class C18(Prop):
       call_kw['override_args'] = c2['override']
     if c2['ignore'] is not None:
       call_kw['ignore_extra_args'] = c2['ignore']
-    model['call'] = outcome(lambda: obj(*a2, **call_kw), sig)
-    model['call0'] = outcome(lambda: obj(), sig)
+    import contextlib
+    scope = (contextlib.nullcontext if case.get('tc_call', True) else (lambda: pg.enable_type_check(False)))
+    with scope():
+      model['call'] = outcome(lambda: obj(*a2, **call_kw), sig)
+      model['call0'] = outcome(lambda: obj(), sig)
     # the functor must not have been changed by being called
     obs['init_args_after_call'] = canon_init_args(obj, missing)
-    obs['clone_call'] = outcome(lambda: obj.clone()(*a2, **call_kw), sig)
-    obs['clone_deep_call'] = outcome(lambda: obj.clone(deep=True)(*a2, **call_kw), sig)
+    with scope():
+      obs['clone_call'] = outcome(lambda: obj.clone()(*a2, **call_kw), sig)
+      obs['clone_deep_call'] = outcome(lambda: obj.clone(deep=True)(*a2, **call_kw), sig)
     try:
       rt = pg.from_json(obj.to_json())
       obs['json_init_args'] = canon_init_args(rt, missing)
@@ -780,6 +787,8 @@ class C18(Prop):
          'pos-defaults:%d' % sum(1 for _, d in sig['pos'] if d is not None)]
     if case.get('ann'):
       h.append('annotated%s' % ('+auto_typing' if case.get('auto_typing') else ''))
+    if not case.get('tc_call', True):
+      h.append('call-under-type-check-off')
     h.append('py_c1:%s' % (m['py_c1'].get('kind') or 'ok'))
     if case['kind'] == 'cls':
       h.append('direct:%s' % (m['direct'].get('err') or 'ok'))
